@@ -60,6 +60,12 @@ def input_for(kind: str, arity: int) -> list[list]:
             return [[T3[0]], [T3[0]], [T3[0], T3[1]]]
         return [[(*T3[0], I("http://a/g"))], [(*T3[0], B("g"))],
                 [(*T3[0], DEFAULT), (*T3[1], DEFAULT)]]
+    if kind == "recurring_graph":
+        # graph names come back after another graph was written in between (g1, g2, g1, D, g2)
+        if arity == 3:
+            return [[T3[0]], [T3[1]], [T3[2]]]
+        gs = [I("http://a/g"), B("g"), I("http://a/g"), DEFAULT, B("g")]
+        return [[(*t, g) for t, g in zip(T3, gs)]]
     if kind == "one":
         return [base[:1]]
     if kind == "five":
@@ -112,22 +118,25 @@ def build(case: dict, opts=None, poison: bool = False):
         return out.getvalue(), True, None
     from pyjelly.integrations.rdflib import serialize as ser  # noqa: PLC0415
 
+    empty = DR.EMPTY_GRAPHS if case.get("empty_graphs") else ()
+    order = case.get("empty_graphs") or None  # "empty-first" / "empty-last"
     if entry == "stream_frames_gen":
         stream = DR.r_stream(cls, opts)
         stmts = [T.st_to_rdflib(s) for s in flat]
         return DR.frames_to_bytes(ser.stream_frames(stream, (s for s in stmts)), dl), dl, stream
     if entry == "stream_frames_graph":
         stream = DR.r_stream(cls, opts)
-        return DR.frames_to_bytes(ser.stream_frames(stream, DR.r_graph(flat)), dl), dl, stream
+        return DR.frames_to_bytes(ser.stream_frames(stream, DR.r_graph(flat, (), empty, order)), dl), \
+            dl, stream
     out = io.BytesIO()
     if entry == "flat_to_file":
         stmts = [T.st_to_rdflib(s) for s in flat]
         ser.flat_stream_to_file((s for s in stmts), out, opts)
         return out.getvalue(), True, None
     if entry == "grouped_to_file":
-        ser.grouped_stream_to_file((DR.r_graph(g) for g in groups), out, options=opts)
+        ser.grouped_stream_to_file((DR.r_graph(g, (), empty, order) for g in groups), out, options=opts)
         return out.getvalue(), True, None
-    g = DR.r_graph(flat)
+    g = DR.r_graph(flat, (), empty, order)
     if entry == "graph_serialize_options":
         g.serialize(destination=out, format="jelly", options=opts)
         return out.getvalue(), dl, None
@@ -227,6 +236,14 @@ def all_points(frame_sizes) -> list:
                                             "ManualFrameFlow"):
                                     pts.append((api, entry, cls, lt, dl, fs, flow,
                                                 "same_in_groups", False))
+                                    if cls != "triple":
+                                        pts.append((api, entry, cls, lt, dl, fs, flow,
+                                                    "recurring_graph", False))
+                                        if api == "rdflib" and entry not in ("stream_frames_gen",
+                                                                             "flat_to_file"):
+                                            for order in ("empty-first", "empty-last"):
+                                                pts.append((api, entry, cls, lt, dl, fs, flow,
+                                                            "five", order))
                                 if flow != "inferred" and fs == 2:
                                     pts.append((api, entry, cls, lt, dl, fs, flow, "five",
                                                 "flow"))
@@ -252,7 +269,8 @@ def shard(job) -> dict:
     for api, entry, cls, lt, dl, fs, flow, inp, reuse in all_points(frame_sizes)[lo::hi]:
         case = {"api": api, "entry": entry, "cls": cls, "logical": lt, "delimited": dl,
                 "frame_size": fs, "flow": flow, "input": inp, "reuse": reuse is True,
-                "reuse_flow": reuse == "flow"}
+                "reuse_flow": reuse == "flow",
+                "empty_graphs": reuse if str(reuse).startswith("empty-") else False}
         acc.evals += 1
         outcome, info = run_case(case)
         acc.counters[f"outcome:{outcome}"] += 1
